@@ -1,8 +1,8 @@
 """C04 - missing data never enters a score as a number.
 
 E1, deviation = one cell of one field of one input made missing in one encoding:
-  text    tokens -999, -999.0, nan, NA, na, '.', and the row left out altogether
-  NetCDF  NaN, -999, masked (default fill), masked (explicit _FillValue that is an ordinary number), 1e31
+  text    tokens -999, -999.0, nan, NA, na, '.', inf, 1e400, and the row left out altogether
+  NetCDF  NaN, -999, masked (default fill), masked (explicit _FillValue that is an ordinary number), 1e31, +inf, -inf
 dataset: 2 inputs, 2x2x2 cases, fields obs fcst pit p1 p2 q0.1 q0.9 e0 e1 e2 crps.
 Oracles (independent):
  (i)  the reader + Data: every request equals the reference model in which that cell is missing;
@@ -25,14 +25,14 @@ from checks import common_data as CD
 PID = "C04"
 LEVEL = "exploration"
 TECHNIQUE = "bounded exhaustive enumeration (E1): every (input, field, cell, encoding) single deviation and all pairs of cells, all metrics x axes, against the reference dataset model and a metamorphic canonical-form oracle"
-ASSUMPTIONS = ["'inf' / '>1e30' tokens in TEXT files are not among that format's documented missing tokens and are excluded",
+ASSUMPTIONS = ["-inf is not a documented missing-value encoding: it is only exercised for obs and fcst, where a non-finite value is dropped", "finite tokens above 1e30 (e.g. 1e31) in TEXT files are not judged; infinite ones (inf, 1e400) are",
                "metric formulas themselves are decided by C05/C06/C08; here only that missing cases are dropped"]
 
 DAY = 86400
 T0 = 1330387200
 FIELDS = ["obs", "fcst", "pit", "p1", "p2", "q0.1", "q0.9", "e0", "e1", "e2", "crps"]
-TEXT_TOKENS = ["-999", "-999.0", "nan", "NA", "na", ".", "<absent-row>"]
-NC_ENCS = ["nan", "-999", "masked", "fill", "1e31"]
+TEXT_TOKENS = ["-999", "-999.0", "nan", "NA", "na", ".", "<absent-row>", "inf", "1e400", "1e31", "-inf"]    # inf, 1e400, 1e31: values above 1e30
+NC_ENCS = ["nan", "-999", "masked", "fill", "1e31", "inf", "-inf"]
 P1, P2 = ("p", 1.0), ("p", 2.0)
 Q1, Q9 = ("q", 0.1), ("q", 0.9)
 ROLE_SETS = [["obs", "fcst"], ["fcst"], ["obs"], ["pit"], ["obs", P1], ["obs", P1, P2], ["obs", Q1], [Q1, Q9, "fcst", "obs"],
@@ -244,6 +244,8 @@ def h_single(ctx):
         ci = ctx.choose("cell%d" % m, opts, free=True)
         prev = ci
         e = ctx.choose("enc%d" % m, encs_menu if m == 0 or ctx.params.get("enc_all") else encs_menu[:1], free=True)
+        if e in ("-inf",) and cells[ci][1] not in ("obs", "fcst"):
+            e = encs_menu[0]        # minus infinity is only judged for obs / fcst (non-finite = missing there); see ASSUMPTIONS
         marks.append(cells[ci])
         encs.append(e)
     marked = [a.copy() for a in inputs]
